@@ -47,7 +47,7 @@ inductive Err | exists | notDir | isDir | noEnt | loop
 
 structure Facts where
   defaultMode : Nat                 -- `if mode == 0 { mode = 0664 }` in WriteFile
-  dirBeforeSymlink : Bool           -- callback tests IsDir, then IsSymlink, then copies/links
+  tempThenRename : Bool             -- WriteFile writes a temporary file and renames it over `to` (never writes into `to`)
   topLevelSymlinkAware : Bool       -- false today: a non-directory `from` goes straight to CopyOrLinkFile
   linkRecreatesSymlink : Bool       -- CopyOrLinkFile with link=true recreates a symlink instead of hard-linking it
   fallbackUsesSourceMode : Bool     -- the copy after a failed hard link takes the source's mode
@@ -80,15 +80,31 @@ def Ents.sort : Ents → Ents
   | .cons n x rest => (rest.sort).insertSorted n x.sort
 end
 
-/-- `CopyFile(from, to, mode)` where `from` resolves to inode `i`: a new inode with the same bytes and the
-    permission bits `mode` (`defaultMode` for 0), renamed over whatever non-directory is at the destination. -/
+/-- `CopyFile(from, to, mode)` where `from` resolves to inode `i`.
+    With `tempThenRename` (today's `WriteFile`): a new inode with the same bytes and the permission bits `mode`
+    (`defaultMode` for 0) is renamed over whatever non-directory is at the destination -- no existing inode is written.
+    Without it (`os.Create(to)` and copy): an existing destination *file* is truncated and rewritten in place, through
+    its inode -- which may be shared with the source. -/
 def copyFile (F : Facts) (inos : List Inode) (i : Nat) (mode : Nat) (cur : Option Node) : Except Err (Node × List Inode) :=
   match inos[i]? with
   | none => .error .noEnt
   | some src =>
+    let fresh : Except Err (Node × List Inode) :=
+      .ok (.file inos.length, inos ++ [{ content := src.content, perm := if mode = 0 then F.defaultMode else mode }])
     match cur with
-    | some (.dir _) => .error .isDir                      -- rename(temp, dir) fails, so does the fallback os.Create
-    | _ => .ok (.file inos.length, inos ++ [{ content := src.content, perm := if mode = 0 then F.defaultMode else mode }])
+    | some (.dir _) => .error .isDir                      -- rename(temp, dir) fails, so does os.Create on a directory
+    | none => fresh
+    | some (.link _) => if F.tempThenRename then fresh else .error .loop     -- writing through a symlink: not modelled
+    | some (.file j) =>
+      if F.tempThenRename then fresh
+      else
+        match inos[j]? with
+        | none => .error .noEnt
+        | some dst =>
+          let truncated := inos.set j { dst with content := [] }             -- os.Create truncates ...
+          match truncated[i]? with                                             -- ... and only then the source is read
+          | none => .error .noEnt
+          | some srcNow => .ok (.file j, truncated.set j { dst with content := srcNow.content })
 
 /-- `CopyOrLinkFile(from, to, fromMode, toMode, link, fallback)` for a regular file with inode `i`. -/
 def copyOrLinkRegular (F : Facts) (p : Params) (inos : List Inode) (i : Nat) (cur : Option Node) :
@@ -176,7 +192,7 @@ def sameOutcome : Except Err (Node × List Inode) → Except Err (Node × List I
 
 def Facts.canon : Facts where
   defaultMode := 0o664
-  dirBeforeSymlink := true
+  tempThenRename := true
   topLevelSymlinkAware := false
   linkRecreatesSymlink := true
   fallbackUsesSourceMode := true
